@@ -471,8 +471,9 @@ func runParseCase(o *hx.Out, d parseDesc, origin string) {
 		}
 		if i < len(d.Alts) && d.Alts[i] != nil {
 			ao := runParse(d.Alts[i], d.Prec)
-			if lo.panicked || ao.panicked || len(lo.pts) != 1 || len(ao.pts) != 1 ||
-				!bytes.Equal(lo.pts[0].key, ao.pts[0].key) || lo.pts[0].hash != ao.pts[0].hash {
+			bothRejected := !lo.panicked && !ao.panicked && len(lo.pts) == 0 && len(ao.pts) == 0 && lo.hadErr && ao.hadErr
+			if !bothRejected && (lo.panicked || ao.panicked || len(lo.pts) != 1 || len(ao.pts) != 1 ||
+				!bytes.Equal(lo.pts[0].key, ao.pts[0].key) || lo.pts[0].hash != ao.pts[0].hash) {
 				permOK = false
 			}
 		}
@@ -845,11 +846,17 @@ func genStructured(r *hx.Rand, prec string, uintOK bool) ([]byte, *apDesc, []byt
 	if r.Chance(80) {
 		lim := (int64(math.MaxInt64) - 1) / mult
 		var t int64
-		switch r.Intn(6) {
+		switch r.Intn(7) {
 		case 0:
 			t = []int64{0, 1, -1, lim, -lim, lim - 1, 1600000000}[r.Intn(7)]
 			if t > lim {
 				t = lim
+			}
+		case 6:
+			// at an edge of the representable range or of a 2^64 wrap; may be out of range, in
+			// which case the line must be rejected
+			if b, ok := boundaryInt64(r, prec); ok {
+				t = b
 			}
 		case 1:
 			t = int64(r.U64()>>1) % (lim + 1)
@@ -1259,16 +1266,32 @@ func main() {
 				var d escDesc
 				json.Unmarshal(in.Desc, &d)
 				runEscCase(o, d, "replay")
+			case "time":
+				var d timeDesc
+				if err := json.Unmarshal(in.Desc, &d); err != nil {
+					panic(err)
+				}
+				runTimeCase(o, d, "replay")
+			case "hhw":
+				var d hhwDesc
+				if err := json.Unmarshal(in.Desc, &d); err != nil {
+					panic(err)
+				}
+				runHHWCase(o, d, "replay")
 			}
 		}
 		return
 	}
 	designed(o)
+	designedTime(o)
+	designedHHW(o)
 	r := hx.NewRand(f.Seed)
 	for i := 0; i < f.N; i++ {
 		switch k := i % 20; {
-		case k < 12:
+		case k < 10:
 			runParseCase(o, genParse(r), "gen")
+		case k < 12:
+			runTimeCase(o, genTime(r), "gen")
 		case k < 15:
 			runBinCase(o, binDesc{B: genBin(r)}, "gen")
 		case k < 16:
@@ -1279,6 +1302,8 @@ func main() {
 			} else {
 				runBinCase(o, binDesc{B: genBin(r)}, "gen")
 			}
+		case k == 19 && i%40 == 39:
+			runHHWCase(o, genHHW(r, f.Tier == "thorough"), "gen")
 		default:
 			runEscCase(o, genEsc(r), "gen")
 		}
